@@ -435,8 +435,8 @@ func init() {
 			Rule: "values: the empty string, every byte 0x01-0x7F, every pair of them, every string of <= 3 atoms over an alphabet of shell-lexical roles (quotes, backslash, $, backtick, blanks, newline, glob and tilde characters, redirections, separators, non-ASCII, command-substitution canaries), length 4 over a core; " +
 				"keys: strings over a 17-atom alphabet at nesting depth <= 3; the text produced by the real @sh operator / shell-variables encoder is expanded by dash and bash under env -i in a directory with glob bait: the word must arrive as exactly one argument equal to the value, NAME must match [A-Za-z_][A-Za-z0-9_]*, no canary may be created; distinct = distinct (kind, keys, value)",
 			Assumptions: []string{"values are valid UTF-8 without NUL (the YAML data model); two shells (dash, bash) stand for 'a POSIX shell'"},
-			Budget: func(t string) time.Duration { return 15 * time.Minute },
-			Run:    c17Run, Replay: c17Replay,
+			Budget:      func(t string) time.Duration { return 15 * time.Minute },
+			Run:         c17Run, Replay: c17Replay,
 		})
 	})
 }
